@@ -52,6 +52,12 @@ def sibling(ctx) -> None:
         # override-first means: there is a path to the success arm that does not run the wrapped method
         override_first = graph.reaches(cfg.ENTRY, success, avoid=method_calls)
     ctx.sample({'bypass_override_consulted_before_wrapped_method': override_first})
+    # only the override lookup is allowed to "miss": the wrapped visit itself runs outside every handler of UnprovisionedError,
+    # so a source that really is unprovisioned below this node is reported, never swallowed
+    handled = [c for t in ast.walk(wrapped.node) if isinstance(t, ast.Try) and any(h.type is None or 'Unprovisioned' in core.src(h.type) or core.src(h.type) in ('Exception', 'BaseException') for h in t.handlers) for st in t.body for c in core.calls_in(st) if core.src(c.func) == 'method']
+    ctx.check(not handled, 'R-SIBLING', wrapped, 'the wrapped visit method is not called under a handler of UnprovisionedError (an unprovisioned source below the node must surface)', handled[0] if handled else wrapped.node, key='bypass:method-unhandled')
+    inside = [core.src(st) for st in tr.body]
+    ctx.check(len(inside) == 1 and 'override(self, subject)' in inside[0], 'R-SIBLING', wrapped, f'the try block holds the override lookup only ({inside})', tr, key='bypass:try-body')
     for k in kinds:
         mfn = matcher.methods.get(k)
         pfn = parser.methods.get(k)
@@ -154,6 +160,8 @@ def priority(ctx) -> None:
     ctx.check(len(pops) == 1 and len(sups) == 1 and g.dominates(pops[0], sups[0]), 'C09.priority', fe, 'the priority option is popped before the generic extraction merges the provider params', fe.node, key='feed:priority-before-params')
     copies = [a for a in core.walk_local(fe.node) if isinstance(a, ast.Assign) and core.src(a.targets[0]) == 'kwargs' and core.src(a.value) == 'dict(kwargs)']
     ctx.check(len(copies) == 1 and bool(pops) and copies[0].lineno < pops[0].lineno, 'C09.priority', fe, 'the caller\'s option mapping is copied before anything is popped from it', fe.node, key='feed:copy-before-pop')
+    rb = [a for a in core.walk_local(fe.node) if isinstance(a, ast.Assign) and any(core.src(c.func) == 'super()._extract' for c in core.calls_in(a))]
+    ctx.check(len(rb) == 1 and core.src(rb[0].targets[0]) in ('([reference], kwargs)', '[reference], kwargs') and [core.src(x) for x in rb[0].value.args] == ['reference', 'kwargs'], 'C09.priority', fe, f'the provider reference is the one the generic extraction resolved (re-bound from its result: `{core.src(rb[0].targets[0]) if rb else None}`), not the section name', rb[0] if rb else fe.node, key='feed:reference-rebound')
     fields = prog.cls('forml.setup._provider:Feed').assigns.get('FIELDS')
     ctx.check(fields is not None and core.src(fields) == "('reference', 'priority', 'params')", 'C09.priority', 'forml.setup._provider:Feed', 'feed section fields are (reference, priority, params)', key='feed:fields', loc='forml/setup/_provider.py')
     flt = prog.func('forml.setup._provider:Feed.__lt__')
